@@ -61,6 +61,10 @@ fn main() {
                     client::pty::cleanup_workdirs();
                     c
                 }
+                "T12a" | "T13a" | "T14a" => {
+                    let st = std::process::Command::new(client::exe("adsb-sim-alloc")).arg("replay").arg(&path).status().unwrap_or_else(|e| harness_error(&format!("cannot run adsb-sim-alloc: {e}")));
+                    st.code().unwrap_or(2)
+                }
                 "T12" => replay_with(&tracker::TrackerEngine { prop: "C12" }, &rf, &path),
                 "T13" => replay_with(&tracker::TrackerEngine { prop: "C13" }, &rf, &path),
                 "T14" => replay_with(&tracker::TrackerEngine { prop: "C14" }, &rf, &path),
@@ -89,7 +93,12 @@ fn check(prop: &str, tier: &str) -> i32 {
                 _ => "C15",
             };
             let cfg = BatchCfg::from_env(tier, 60_000, 4_000_000, 120.0, 1500.0);
-            run_batch(&tracker::TrackerEngine { prop: p }, &cfg).exit_code
+            let rc = run_batch(&tracker::TrackerEngine { prop: p }, &cfg).exit_code;
+            if p == "C15" || rc == 2 {
+                return rc;
+            }
+            // second configuration: the same engine against the alloc-only (no_std) build
+            rc.max(alloc_only_batch(p, tier))
         }
         "C16" => {
             let mut cfg = BatchCfg::from_env(tier, 1_500, 250_000, 240.0, 1800.0);
@@ -168,4 +177,38 @@ fn selftest(args: &[String]) -> i32 {
     let _ = std::fs::remove_dir_all(&dir);
     println!("selftest ok: {total} seeds x 4 executions, no divergence");
     0
+}
+
+/// Run Engine T for `prop` against the alloc-only build (binary `adsb-sim-alloc`) and fold its
+/// summary into the property's evidence file.
+fn alloc_only_batch(prop: &str, tier: &str) -> i32 {
+    let dir = simcore::verif_dir();
+    let out_base = std::env::var("VERIF_OUT_DIR").map(PathBuf::from).unwrap_or_else(|_| dir.clone());
+    let sub = out_base.join("work").join("alloc").join(prop);
+    let _ = std::fs::create_dir_all(&sub);
+    println!("--- same engine against the alloc-only (no_std) build of tracker and decoder");
+    let st = std::process::Command::new(client::exe("adsb-sim-alloc"))
+        .args(["check", prop, "--tier", tier])
+        .env("VERIF_OUT_DIR", &sub)
+        .status()
+        .unwrap_or_else(|e| harness_error(&format!("cannot run adsb-sim-alloc: {e}")));
+    let rc = st.code().unwrap_or(2);
+    let evp = out_base.join("evidence").join(format!("{prop}.json"));
+    let sub_ev = sub.join("evidence").join(format!("{prop}.json"));
+    if let (Ok(a), Ok(b)) = (std::fs::read_to_string(&evp), std::fs::read_to_string(&sub_ev)) {
+        if let (Ok(mut main), Ok(alloc)) = (serde_json::from_str::<serde_json::Value>(&a), serde_json::from_str::<serde_json::Value>(&b)) {
+            let c = &alloc["coverage"];
+            main["coverage"]["alloc_only_build"] = serde_json::json!({
+                "what": "the same generator, executor and reference model run against rsadsb_common / adsb_deku built with --no-default-features --features alloc (no clock, no expiry: expiry calls in the scenarios are skipped)",
+                "evaluations": c["evaluations"], "distinct_nontrivial": c["distinct_nontrivial"], "distinct_traces": c["distinct_traces"],
+                "faults_fired": c["faults_fired"], "probes": c["probes"], "violations_reported": c["violations_reported"], "wall_s": alloc["wall_s"],
+            });
+            if rc == 1 {
+                let v = main["violations"].as_i64().unwrap_or(0) + alloc["violations"].as_i64().unwrap_or(1);
+                main["violations"] = serde_json::json!(v);
+            }
+            let _ = std::fs::write(&evp, serde_json::to_string_pretty(&main).unwrap());
+        }
+    }
+    rc
 }
